@@ -792,8 +792,20 @@ def targets(spec, path=()):
 
 class Check(PropertyCheck):
     id = 'C16'
-    lean_targets = ['RegionsVerif.Props.C16']
-    namespaces = ['RegionsVerif.Props.C16']
+    lean_targets = ['RegionsVerif.Props.C16', 'RegionsVerif.Bridge.InlineGlueC16']
+    namespaces = ['RegionsVerif.Props.C16', 'RegionsVerif.Bridge.InlineGlueC16']
+
+    def _inline_glue(self):
+        # tie T: normal forms of the glue methods (tools/inlineglue.py, group C16)
+        import importlib.util, os
+        from .common import VERIF
+        spec = importlib.util.spec_from_file_location('inlineglue', os.path.join(VERIF, 'tools', 'inlineglue.py'))
+        mod = importlib.util.module_from_spec(spec)
+        spec.loader.exec_module(mod)
+        return mod.main(['C16'])
+
+    def translate(self):
+        return self._inline_glue()
     rule = ('all 23 concrete region classes (12 pixel incl. regular polygon / annuli / text / point / line / compound, '
             '11 sky) x random parameters (Python ints, dyadics, reals, zeros, tiny and 1e6 magnitudes; angles in '
             'deg/arcmin/arcsec/rad; icrs/fk5/galactic) x {copy, deepcopy, copy(**changes) with 1-3 named fields, plain-dict '
